@@ -26,7 +26,7 @@ BODIES = [
     "if True:\n    text = '£' * 3\nelse:\n    text = ''\n",
 ]
 FIRST_LINES = [None, '#!/usr/bin/env python', '#!/usr/bin/python3 -u', '#! /bin/sh ', '#!/usr/bin/pythön', '#!', '# not a shebang',
-               '#!/usr/bin/python -*- coding: {ENC} -*-']
+               '#!/usr/bin/python -*- coding: {ENC} -*-', '#!/usr/bin/env python3 \x0c -x', '#!/bin/sh\x0b\x1c', '#!/usr/bin/python \x85 \u2028 x']
 ENCODINGS = [('utf-8', None, False), ('utf-8', None, True), ('utf-8', 'utf-8', False), ('latin-1', 'latin-1', False),
              ('cp1252', 'cp1252', False), ('iso-8859-15', 'iso-8859-15', False)]
 NEWLINES = ['\n', '\r\n', '\r']
